@@ -1,5 +1,582 @@
-//! C02 — not built yet.
-#![allow(unused)]
+//! C02 — densities, mass functions, moments of the 13 univariate laws and the multivariate normal.
+use crate::libm::{self, reference};
 use crate::util::*;
-pub fn gen(_tier: &str, _seed: u64, _outdir: &str) { eprintln!("C02: gen not implemented"); std::process::exit(3); }
-pub fn oracle(_tier: &str, _seed: u64) -> (u64, Vec<Finding>) { eprintln!("C02: oracle not implemented"); std::process::exit(3); }
+use compute::distributions::*;
+use compute::linalg::{Matrix, Vector};
+use std::f64::consts::PI;
+
+/// A distribution with its parameters (mirrors `Inductive dist` of Model/Dists.v).
+#[derive(Clone, Copy, Debug)]
+pub enum D {
+    Bernoulli(f64), Beta(f64, f64), Binomial(u64, f64), ChiSquared(usize), DiscreteUniform(i64, i64),
+    Exponential(f64), Gamma(f64, f64), Gumbel(f64, f64), Normal(f64, f64), Pareto(f64, f64), Poisson(f64),
+    T(f64), Uniform(f64, f64),
+}
+use D::*;
+
+impl D {
+    fn name(&self) -> &'static str {
+        match self { Bernoulli(..) => "bernoulli", Beta(..) => "beta", Binomial(..) => "binomial", ChiSquared(..) => "chisq",
+            DiscreteUniform(..) => "duniform", Exponential(..) => "exponential", Gamma(..) => "gamma", Gumbel(..) => "gumbel",
+            Normal(..) => "normal", Pareto(..) => "pareto", Poisson(..) => "poisson", T(..) => "t", Uniform(..) => "uniform" }
+    }
+    fn discrete(&self) -> bool { matches!(self, Bernoulli(..) | Binomial(..) | DiscreteUniform(..) | Poisson(..)) }
+    fn tm(&self) -> Tm {
+        match *self {
+            Bernoulli(p) => app("DBernoulli", vec![Tm::F(p)]),
+            Beta(a, b) => app("DBeta", vec![Tm::F(a), Tm::F(b)]),
+            Binomial(n, p) => app("DBinomial", vec![Tm::Z(n as i64), Tm::F(p)]),
+            ChiSquared(k) => app("DChiSquared", vec![Tm::Z(k as i64)]),
+            DiscreteUniform(a, b) => app("DDiscreteUniform", vec![Tm::Z(a), Tm::Z(b)]),
+            Exponential(l) => app("DExponential", vec![Tm::F(l)]),
+            Gamma(a, b) => app("DGamma", vec![Tm::F(a), Tm::F(b)]),
+            Gumbel(m, b) => app("DGumbel", vec![Tm::F(m), Tm::F(b)]),
+            Normal(m, s) => app("DNormal", vec![Tm::F(m), Tm::F(s)]),
+            Pareto(a, m) => app("DPareto", vec![Tm::F(a), Tm::F(m)]),
+            Poisson(l) => app("DPoisson", vec![Tm::F(l)]),
+            T(n) => app("DT", vec![Tm::F(n)]),
+            Uniform(a, b) => app("DUniform", vec![Tm::F(a), Tm::F(b)]),
+        }
+    }
+    fn show(&self) -> String { format!("{:?}", self) }
+
+    // ---- the implementation, through the public API (constructors may panic)
+    pub fn pdf(&self, x: f64) -> f64 {
+        match *self {
+            Beta(a, b) => compute::distributions::Beta::new(a, b).pdf(x),
+            ChiSquared(k) => compute::distributions::ChiSquared::new(k).pdf(x),
+            Exponential(l) => compute::distributions::Exponential::new(l).pdf(x),
+            Gamma(a, b) => compute::distributions::Gamma::new(a, b).pdf(x),
+            Gumbel(m, b) => compute::distributions::Gumbel::new(m, b).pdf(x),
+            Normal(m, s) => compute::distributions::Normal::new(m, s).pdf(x),
+            Pareto(a, m) => compute::distributions::Pareto::new(a, m).pdf(x),
+            T(n) => compute::distributions::T::new(n).pdf(x),
+            Uniform(a, b) => compute::distributions::Uniform::new(a, b).pdf(x),
+            _ => panic!("not continuous"),
+        }
+    }
+    pub fn ln_pdf(&self, x: f64) -> f64 {
+        match *self {
+            Beta(a, b) => compute::distributions::Beta::new(a, b).ln_pdf(x),
+            ChiSquared(k) => compute::distributions::ChiSquared::new(k).ln_pdf(x),
+            Exponential(l) => compute::distributions::Exponential::new(l).ln_pdf(x),
+            Gamma(a, b) => compute::distributions::Gamma::new(a, b).ln_pdf(x),
+            Gumbel(m, b) => compute::distributions::Gumbel::new(m, b).ln_pdf(x),
+            Normal(m, s) => compute::distributions::Normal::new(m, s).ln_pdf(x),
+            Pareto(a, m) => compute::distributions::Pareto::new(a, m).ln_pdf(x),
+            T(n) => compute::distributions::T::new(n).ln_pdf(x),
+            Uniform(a, b) => compute::distributions::Uniform::new(a, b).ln_pdf(x),
+            _ => panic!("not continuous"),
+        }
+    }
+    pub fn pmf(&self, k: i64) -> f64 {
+        match *self {
+            Bernoulli(p) => compute::distributions::Bernoulli::new(p).pmf(k),
+            Binomial(n, p) => compute::distributions::Binomial::new(n, p).pmf(k),
+            DiscreteUniform(a, b) => compute::distributions::DiscreteUniform::new(a, b).pmf(k),
+            Poisson(l) => compute::distributions::Poisson::new(l).pmf(k),
+            _ => panic!("not discrete"),
+        }
+    }
+    pub fn mean(&self) -> f64 {
+        match *self {
+            Bernoulli(p) => compute::distributions::Bernoulli::new(p).mean(),
+            Beta(a, b) => compute::distributions::Beta::new(a, b).mean(),
+            Binomial(n, p) => compute::distributions::Binomial::new(n, p).mean(),
+            ChiSquared(k) => compute::distributions::ChiSquared::new(k).mean(),
+            DiscreteUniform(a, b) => compute::distributions::DiscreteUniform::new(a, b).mean(),
+            Exponential(l) => compute::distributions::Exponential::new(l).mean(),
+            Gamma(a, b) => compute::distributions::Gamma::new(a, b).mean(),
+            Gumbel(m, b) => compute::distributions::Gumbel::new(m, b).mean(),
+            Normal(m, s) => compute::distributions::Normal::new(m, s).mean(),
+            Pareto(a, m) => compute::distributions::Pareto::new(a, m).mean(),
+            Poisson(l) => compute::distributions::Poisson::new(l).mean(),
+            T(n) => compute::distributions::T::new(n).mean(),
+            Uniform(a, b) => compute::distributions::Uniform::new(a, b).mean(),
+        }
+    }
+    pub fn var(&self) -> f64 {
+        match *self {
+            Bernoulli(p) => compute::distributions::Bernoulli::new(p).var(),
+            Beta(a, b) => compute::distributions::Beta::new(a, b).var(),
+            Binomial(n, p) => compute::distributions::Binomial::new(n, p).var(),
+            ChiSquared(k) => compute::distributions::ChiSquared::new(k).var(),
+            DiscreteUniform(a, b) => compute::distributions::DiscreteUniform::new(a, b).var(),
+            Exponential(l) => compute::distributions::Exponential::new(l).var(),
+            Gamma(a, b) => compute::distributions::Gamma::new(a, b).var(),
+            Gumbel(m, b) => compute::distributions::Gumbel::new(m, b).var(),
+            Normal(m, s) => compute::distributions::Normal::new(m, s).var(),
+            Pareto(a, m) => compute::distributions::Pareto::new(a, m).var(),
+            Poisson(l) => compute::distributions::Poisson::new(l).var(),
+            T(n) => compute::distributions::T::new(n).var(),
+            Uniform(a, b) => compute::distributions::Uniform::new(a, b).var(),
+        }
+    }
+
+    // ---- the textbook formulas (independent: glibc lgamma/erf, log space)
+    /// textbook density at x (continuous laws)
+    fn ref_pdf(&self, x: f64) -> f64 {
+        let lg = reference::lgamma;
+        match *self {
+            Normal(m, s) => { let z = (x - m) / s; (-0.5 * z * z).exp() / (s * (2.0 * PI).sqrt()) }
+            Gamma(a, b) => if x <= 0.0 { 0.0 } else { (a * b.ln() - lg(a) + (a - 1.0) * x.ln() - b * x).exp() },
+            ChiSquared(k) => { let h = k as f64 / 2.0;
+                if x < 0.0 || (x == 0.0 && k == 1) { 0.0 } else if x == 0.0 { if k == 2 { 0.5 } else { 0.0 } }
+                else { (-h * (2f64).ln() - lg(h) + (h - 1.0) * x.ln() - x / 2.0).exp() } }
+            Beta(a, b) => if !(0.0..=1.0).contains(&x) { 0.0 }
+                else if x == 0.0 { if a < 1.0 { f64::INFINITY } else if a == 1.0 { b } else { 0.0 } }
+                else if x == 1.0 { if b < 1.0 { f64::INFINITY } else if b == 1.0 { a } else { 0.0 } }
+                else { ((a - 1.0) * x.ln() + (b - 1.0) * (-x).ln_1p() - (lg(a) + lg(b) - lg(a + b))).exp() },
+            T(n) => (lg((n + 1.0) / 2.0) - lg(n / 2.0) - 0.5 * (n * PI).ln() - (n + 1.0) / 2.0 * (x * x / n).ln_1p()).exp(),
+            Pareto(a, m) => if x < m { 0.0 } else { a / x * (a * (m / x).ln()).exp() },
+            Gumbel(m, b) => { let z = (x - m) / b; (-(z + (-z).exp())).exp() / b }
+            Exponential(l) => if x < 0.0 { 0.0 } else { l * (-l * x).exp() },
+            Uniform(a, b) => if x < a || x > b { 0.0 } else { 1.0 / (b - a) },
+            _ => panic!("not continuous"),
+        }
+    }
+    /// textbook mass at k (discrete laws)
+    fn ref_pmf(&self, k: i64) -> f64 {
+        let lg = reference::lgamma;
+        match *self {
+            Bernoulli(p) => if k == 0 { 1.0 - p } else if k == 1 { p } else { 0.0 },
+            DiscreteUniform(a, b) => if k < a || k > b { 0.0 } else { 1.0 / ((b - a + 1) as f64) },
+            Binomial(n, p) => {
+                if k < 0 || k as u64 > n { return 0.0; }
+                let (kf, nf) = (k as f64, n as f64);
+                if p == 0.0 { return if k == 0 { 1.0 } else { 0.0 }; }
+                if p == 1.0 { return if k as u64 == n { 1.0 } else { 0.0 }; }
+                (lg(nf + 1.0) - lg(kf + 1.0) - lg(nf - kf + 1.0) + kf * p.ln() + (nf - kf) * (-p).ln_1p()).exp()
+            }
+            Poisson(l) => if k < 0 { 0.0 } else { let kf = k as f64; (kf * l.ln() - l - lg(kf + 1.0)).exp() },
+            _ => panic!("not discrete"),
+        }
+    }
+    /// textbook mean / variance (None where the moment is infinite or undefined)
+    fn ref_mean(&self) -> Option<f64> {
+        Some(match *self {
+            Bernoulli(p) => p, Beta(a, b) => a / (a + b), Binomial(n, p) => n as f64 * p, ChiSquared(k) => k as f64,
+            DiscreteUniform(a, b) => (a as f64 + b as f64) / 2.0, Exponential(l) => 1.0 / l, Gamma(a, b) => a / b,
+            Gumbel(m, b) => m + b * 0.577_215_664_901_532_9, Normal(m, _) => m,
+            Pareto(a, m) => if a > 1.0 { a * m / (a - 1.0) } else { return None },
+            Poisson(l) => l, T(n) => if n > 1.0 { 0.0 } else { return None }, Uniform(a, b) => (a + b) / 2.0,
+        })
+    }
+    fn ref_var(&self) -> Option<f64> {
+        Some(match *self {
+            Bernoulli(p) => p * (1.0 - p), Beta(a, b) => a * b / ((a + b) * (a + b) * (a + b + 1.0)),
+            Binomial(n, p) => n as f64 * p * (1.0 - p), ChiSquared(k) => 2.0 * k as f64,
+            DiscreteUniform(a, b) => { let n = (b - a + 1) as f64; (n * n - 1.0) / 12.0 }
+            Exponential(l) => 1.0 / (l * l), Gamma(a, b) => a / (b * b), Gumbel(_, b) => PI * PI / 6.0 * b * b,
+            Normal(_, s) => s * s,
+            Pareto(a, m) => if a > 2.0 { m * m * a / ((a - 1.0) * (a - 1.0) * (a - 2.0)) } else { return None },
+            Poisson(l) => l, T(n) => if n > 2.0 { n / (n - 2.0) } else { return None },
+            Uniform(a, b) => (b - a) * (b - a) / 12.0,
+        })
+    }
+    /// a length scale of the law (for absolute floors) and a centre
+    fn scale(&self) -> f64 {
+        match *self { Normal(_, s) => s, Gamma(a, b) => (a.sqrt()).max(1.0) / b, ChiSquared(k) => (2.0 * k as f64).sqrt(), Beta(..) => 1.0,
+            T(_) => 1.0, Pareto(_, m) => m, Gumbel(_, b) => b, Exponential(l) => 1.0 / l, Uniform(a, b) => b - a, _ => 1.0 }
+    }
+}
+
+// ------------------------------------------------------------------------------------------------
+// tanh-sinh quadrature on (a,b); the integrand sees x and its exact distances to both endpoints, and
+// returns three values at once (mass, first and second moment integrands)
+fn tanh_sinh(a: f64, b: f64, f: &dyn Fn(f64, f64, f64) -> [f64; 3]) -> [f64; 3] {
+    let c = (b - a) / 2.0;
+    let mut prev = [f64::NAN; 3];
+    let mut res = [0.0; 3];
+    for level in 4..=9 {
+        let h = 1.0 / (1u64 << level) as f64;
+        let mut s = [0.0f64; 3];
+        let kmax = (6.2 / h) as i64;
+        for k in -kmax..=kmax {
+            let t = k as f64 * h;
+            let u = PI / 2.0 * t.abs().sinh();
+            let q = (-2.0 * u).exp();
+            let delta = 2.0 * q / (1.0 + q); // 1 - |w|
+            let w = PI / 2.0 * t.cosh() * 4.0 * q / ((1.0 + q) * (1.0 + q));
+            if !(delta > 0.0) || w == 0.0 { continue; }
+            let (x, da, db) = if k < 0 { (a + c * delta, c * delta, 2.0 * c - c * delta) } else { (b - c * delta, 2.0 * c - c * delta, c * delta) };
+            if !(x > a && x < b) { continue; }
+            let v = f(x, da, db);
+            for j in 0..3 { if v[j].is_finite() { s[j] += v[j] * w; } else { s[j] = f64::NAN; } }
+        }
+        for j in 0..3 { res[j] = s[j] * c * h; }
+        let conv = (0..3).all(|j| (res[j] - prev[j]).abs() <= 1e-12 * res[j].abs().max(1e-300) + 1e-300);
+        if conv { break; }
+        prev = res;
+    }
+    res
+}
+
+/// (mass, E[X - c0], E[(X - c0)^2]) of the IMPLEMENTATION's density by numerical integration, pieces chosen per law
+fn integrate_impl(d: &D, c0: f64) -> [f64; 3] {
+    let g = |x: f64, jac: f64| -> [f64; 3] { let p = d.pdf(x) * jac; [p, (x - c0) * p, (x - c0) * (x - c0) * p] };
+    let mut tot = [0.0; 3];
+    let mut add = |r: [f64; 3]| { for j in 0..3 { tot[j] += r[j]; } };
+    match *d {
+        Normal(m, s) => { for w in [(-40.0, -8.0), (-8.0, 0.0), (0.0, 8.0), (8.0, 40.0)] { add(tanh_sinh(m + w.0 * s, m + w.1 * s, &|x, _, _| g(x, 1.0))); } }
+        Gumbel(m, b) => { for w in [(-8.0, 0.0), (0.0, 6.0), (6.0, 60.0)] { add(tanh_sinh(m + w.0 * b, m + w.1 * b, &|x, _, _| g(x, 1.0))); } }
+        Exponential(l) => { for w in [(0.0, 3.0), (3.0, 70.0)] { add(tanh_sinh(w.0 / l, w.1 / l, &|x, _, _| g(x, 1.0))); } }
+        Uniform(a, b) => add(tanh_sinh(a, b, &|x, _, _| g(x, 1.0))),
+        Gamma(..) | ChiSquared(..) => {
+            let (a, b) = match *d { Gamma(a, b) => (a, b), ChiSquared(k) => (k as f64 / 2.0, 0.5), _ => unreachable!() };
+            let mode = ((a - 1.0).max(0.0)) / b; let sd = a.sqrt() / b;
+            let mut cuts = vec![0.0];
+            if mode > 0.0 { if mode - 3.0 * sd > 0.0 { cuts.push(mode - 3.0 * sd); } cuts.push(mode); }
+            cuts.push(mode + 3.0 * sd + 1.0 / b); cuts.push(mode + 12.0 * sd + 10.0 / b); cuts.push(mode + 30.0 * sd + 40.0 / b);
+            for w in cuts.windows(2) { add(tanh_sinh(w[0], w[1], &|_x, da, _| { let x = w[0] + da; g(if w[0] == 0.0 { da } else { x }, 1.0) })); }
+        }
+        Beta(..) => { for w in [(0.0, 0.5), (0.5, 1.0)] { add(tanh_sinh(w.0, w.1, &|x, da, _| g(if w.0 == 0.0 { da } else { x }, 1.0))); } }
+        T(_) => {
+            // x = s / (1 - s^2), s in (-1, 1): dx/ds = (1 + s^2) / (1 - s^2)^2, with 1 - s^2 from the exact endpoint distance
+            for w in [(-1.0, 0.0), (0.0, 1.0)] {
+                add(tanh_sinh(w.0, w.1, &|s, da, db| { let e = if w.0 < 0.0 { da } else { db }; let om = e * (2.0 - e); g(s / om, (1.0 + s * s) / (om * om)) }));
+            }
+        }
+        Pareto(_, m) => {
+            // x = m / u, u in (0, 1): dx = m / u^2 du
+            add(tanh_sinh(0.0, 1.0, &|_u, da, _| { let u = da; if u < 1e-100 { [0.0; 3] } else { g(m / u, m / (u * u)) } }));
+        }
+        _ => panic!("not continuous"),
+    }
+    tot
+}
+
+// ------------------------------------------------------------------------------------------------
+fn logu(r: &mut Rng, lo: f64, hi: f64) -> f64 { (r.uniform(lo.ln(), hi.ln())).exp() }
+
+/// parameter grids of the property: shape <1, =1, >1; dof 1..200; rates 1e-3..1e3; n up to 1000; locations up to +-1e3
+fn param_grid(r: &mut Rng, extra: usize) -> Vec<D> {
+    let mut v = vec![];
+    let shapes = [0.2, 0.5, 0.9, 1.0, 1.5, 2.0, 3.5, 10.0, 30.0];
+    let rates = [1e-3, 0.05, 0.5, 1.0, 2.0, 37.0, 1e3];
+    let locs = [0.0, 1.0, -2.5, 1e3, -1e3, 37.25];
+    let scales = [1e-3, 0.1, 1.0, 4.0, 250.0];
+    for &m in &locs { for &s in &scales { v.push(Normal(m, s)); v.push(Gumbel(m, s)); } }
+    for &a in &shapes { for &b in &rates { v.push(Gamma(a, b)); } }
+    for &a in &shapes { for &b in &shapes { v.push(Beta(a, b)); } }
+    for k in (1..=12).chain([15, 20, 30, 50, 64, 100, 150, 199, 200]) { v.push(ChiSquared(k)); }
+    for n in [1.0, 1.5, 2.0, 2.5, 3.0, 4.0, 5.0, 7.5, 10.0, 30.0, 100.0, 200.0] { v.push(T(n)); }
+    for &a in &[0.5, 1.0, 1.5, 2.0, 2.5, 3.0, 5.0, 20.0] { for &m in &[1e-3, 0.5, 1.0, 7.0, 1e3] { v.push(Pareto(a, m)); } }
+    for &l in &rates { v.push(Exponential(l)); }
+    for &l in &[1e-3, 0.05, 0.5, 1.0, 2.0, 9.5, 10.0, 37.0, 100.0, 200.0, 1e3] { v.push(Poisson(l)); }
+    for &(a, b) in &[(0.0, 1.0), (-2.0, 6.0), (1e3, 1e3 + 1e-3), (-1e3, 1e3), (0.25, 0.5)] { v.push(Uniform(a, b)); }
+    for &p in &[0.0, 1e-3, 0.3, 0.5, 0.9, 1.0] { v.push(Bernoulli(p)); }
+    for &n in &[0u64, 1, 2, 5, 15, 40, 62, 67, 68, 70, 100, 333, 1000] { for &p in &[0.0, 1e-3, 0.3, 0.5, 0.9, 1.0] { v.push(Binomial(n, p)); } }
+    for &(a, b) in &[(0, 1), (0, 0), (-2, 6), (1, 6), (-7, -3), (0, 2), (-1000, 1000), (5, 1000)] { v.push(DiscreteUniform(a, b)); }
+    for _ in 0..extra {
+        v.push(Normal(r.uniform(-1e3, 1e3), logu(r, 1e-3, 1e3)));
+        v.push(Gumbel(r.uniform(-1e3, 1e3), logu(r, 1e-3, 1e3)));
+        v.push(Gamma(logu(r, 0.2, 40.0), logu(r, 1e-3, 1e3)));
+        v.push(Beta(logu(r, 0.2, 40.0), logu(r, 0.2, 40.0)));
+        v.push(ChiSquared(1 + r.below(200) as usize));
+        v.push(T(if r.coin(0.5) { (1 + r.below(200)) as f64 } else { logu(r, 1.0, 200.0) }));
+        v.push(Pareto(logu(r, 0.3, 30.0), logu(r, 1e-3, 1e3)));
+        v.push(Exponential(logu(r, 1e-3, 1e3)));
+        v.push(Poisson(logu(r, 1e-3, 1e3)));
+        let a = r.uniform(-1e3, 1e3); v.push(Uniform(a, a + logu(r, 1e-3, 1e3)));
+        v.push(Bernoulli(r.unit()));
+        v.push(Binomial(r.below(1001), if r.coin(0.2) { logu(r, 1e-3, 0.5) } else { r.unit() }));
+        let lo = r.range(-1000, 1000); v.push(DiscreteUniform(lo, lo + r.below(60) as i64));
+    }
+    v
+}
+
+/// evaluation points for a continuous law: across the support, on its boundary, outside, far tails
+fn points_cont(d: &D, r: &mut Rng, n: usize) -> Vec<f64> {
+    let mut p = vec![];
+    match *d {
+        Normal(m, s) | Gumbel(m, s) => { for z in [0.0, 1.0, -1.0, 3.0, -3.0, 8.0, -4.0, 20.0, 30.0] { p.push(m + z * s); } for _ in 0..n { p.push(m + r.uniform(-6.0, 8.0) * s); } }
+        Gamma(..) | ChiSquared(..) => {
+            let (a, b) = match *d { Gamma(a, b) => (a, b), ChiSquared(k) => (k as f64 / 2.0, 0.5), _ => unreachable!() };
+            let (mean, sd) = (a / b, a.sqrt() / b);
+            p.extend([0.0, -0.0, -1.0 / b, -1e3, mean, mean + 10.0 * sd, mean + 30.0 * sd, 1e-9 / b, 1e-3 / b]);
+            for _ in 0..n { p.push((mean + r.uniform(-4.0, 8.0) * sd).abs()); p.push(mean * logu(r, 1e-4, 1.0)); }
+        }
+        Beta(..) => { p.extend([0.0, 1.0, -0.5, 1.5, 0.5, 1e-9, 1.0 - 1e-9, -1e-300, 1.0 + 1e-15]); for _ in 0..2 * n { p.push(r.unit()); } }
+        T(nu) => { let s = if nu > 2.0 { (nu / (nu - 2.0)).sqrt() } else { 3.0 }; p.extend([0.0, 1.0, -1.0, 5.0 * s, -30.0 * s, 1e3, -1e6]); for _ in 0..2 * n { p.push(r.uniform(-8.0, 8.0) * s); } }
+        Pareto(a, m) => { p.extend([m, m * (1.0 - 1e-12), m / 2.0, 0.0, -m, m * 2.0, m * 1e3, m * (1.0 + 1e-9)]); for _ in 0..2 * n { p.push(m * (r.uniform(0.0, 12.0 / a.min(4.0))).exp()); } }
+        Exponential(l) => { p.extend([0.0, -0.0, -1.0 / l, -1e3, 1.0 / l, 30.0 / l, 300.0 / l]); for _ in 0..2 * n { p.push(r.uniform(0.0, 12.0) / l); } }
+        Uniform(a, b) => { p.extend([a, b, (a + b) / 2.0, a - (b - a), b + (b - a), a - 1e3, b + 1e3]); for _ in 0..n { p.push(r.uniform(a, b)); } }
+        _ => panic!("not continuous"),
+    }
+    p
+}
+fn points_disc(d: &D, r: &mut Rng, n: usize) -> Vec<i64> {
+    let mut p: Vec<i64> = vec![-1, 0, 1, 2, -1000];
+    match *d {
+        Bernoulli(_) => { p.push(i32::MAX as i64); }
+        Binomial(nn, pp) => { let nn = nn as i64; p.extend([nn, nn + 1, nn - 1, nn / 2, nn + 1000, (nn as f64 * pp) as i64]);
+            let sd = ((nn as f64) * pp * (1.0 - pp)).sqrt().max(1.0);
+            for _ in 0..n { p.push(r.range(0, nn.max(1))); p.push((nn as f64 * pp + r.uniform(-8.0, 8.0) * sd) as i64); } }
+        DiscreteUniform(a, b) => { p.extend([a, b, a - 1, b + 1, (a + b) / 2, i32::MAX as i64]); for _ in 0..n { p.push(r.range(a - 3, b + 3)); } }
+        Poisson(l) => { let sd = l.sqrt().max(1.0); p.extend([l as i64, (l + 10.0 * sd) as i64, (l + 30.0 * sd) as i64, 170, 171, 172]);
+            for _ in 0..2 * n { p.push(((l + r.uniform(-8.0, 12.0) * sd).max(0.0)) as i64); } }
+        _ => panic!("not discrete"),
+    }
+    p
+}
+
+pub fn oracle(tier: &str, seed: u64) -> (u64, Vec<Finding>) {
+    let thorough = tier == "thorough";
+    let mut r = Rng::new(seed ^ 0xC02);
+    let mut tried = 0u64;
+    let mut worst: std::collections::BTreeMap<String, (f64, String, String)> = Default::default();
+    let mut fail = |class: String, sev: f64, what: String, input: String| {
+        let sev = if sev.is_nan() { f64::MAX } else { sev };
+        let e = worst.entry(class).or_insert((-1.0, String::new(), String::new()));
+        if sev > e.0 { *e = (sev, what, input); }
+    };
+    let grid = param_grid(&mut r, if thorough { 400 } else { 40 });
+    let npts = if thorough { 40 } else { 12 };
+    for d in &grid {
+        let nm = d.name();
+        // ---------- pointwise: textbook formula, non-negativity, 0 outside the support without failing, ln_pdf = ln pdf
+        if d.discrete() {
+            for k in points_disc(d, &mut r, npts) {
+                tried += 1;
+                let want = d.ref_pmf(k);
+                crumb(&format!("{} k={}", d.show(), k));
+                match catch(|| d.pmf(k)) {
+                    Err(_) => fail(format!("{}:pmf-fails", nm), 1.0, format!("{}.pmf({}) panics; the mass there is {:e}", d.show(), k, want), format!("{} k={}", d.show(), k)),
+                    Ok(got) => {
+                        let err = (got - want).abs();
+                        if !(got >= 0.0) { fail(format!("{}:pmf-negative-or-nan", nm), 1.0, format!("{}.pmf({}) = {:e} (textbook {:e})", d.show(), k, got, want), format!("{} k={}", d.show(), k)); }
+                        else if !(err <= 1e-9 * want + 1e-200) {
+                            let class = if want == 0.0 { "pmf-nonzero-outside-support" } else { "pmf-differs-from-textbook" };
+                            fail(format!("{}:{}", nm, class), err / want.max(1e-300), format!("{}.pmf({}) = {:e}, textbook mass {:e}", d.show(), k, got, want), format!("{} k={}", d.show(), k));
+                        }
+                    }
+                }
+            }
+        } else {
+            let atol = 1e-200 / d.scale();
+            for x in points_cont(d, &mut r, npts) {
+                tried += 1;
+                let want = d.ref_pdf(x);
+                crumb(&format!("{} x={:e}", d.show(), x));
+                match catch(|| (d.pdf(x), d.ln_pdf(x))) {
+                    Err(_) => fail(format!("{}:pdf-fails", nm), 1.0, format!("{}.pdf({:e}) panics; the density there is {:e}", d.show(), x, want), format!("{} x={:e}", d.show(), x)),
+                    Ok((got, lgot)) => {
+                        let err = (got - want).abs();
+                        if !(got >= 0.0) { fail(format!("{}:pdf-negative-or-nan", nm), 1.0, format!("{}.pdf({:e}) = {:e} (textbook {:e})", d.show(), x, got, want), format!("{} x={:e}", d.show(), x)); }
+                        else if !(err <= 1e-9 * want + atol || (want == f64::INFINITY && got == f64::INFINITY)) {
+                            let class = if want == 0.0 { "pdf-nonzero-outside-support" } else { "pdf-differs-from-textbook" };
+                            fail(format!("{}:{}", nm, class), err / want.max(1e-300), format!("{}.pdf({:e}) = {:e}, textbook density {:e}", d.show(), x, got, want), format!("{} x={:e}", d.show(), x));
+                        }
+                        // log-density = ln(density): compared with the log of the textbook density where that is comfortably normal
+                        if want.is_finite() && want > 1e-90 / d.scale() {
+                            let lw = want.ln();
+                            if !((lgot - lw).abs() <= 1e-9 * lw.abs().max(1.0)) {
+                                fail(format!("{}:ln_pdf-is-not-ln-of-pdf", nm), (lgot - lw).abs(), format!("{}.ln_pdf({:e}) = {:e}, ln of the textbook density {:e}", d.show(), x, lgot, lw), format!("{} x={:e}", d.show(), x));
+                            }
+                        } else if want == 0.0 && !(lgot == f64::NEG_INFINITY) {
+                            fail(format!("{}:ln_pdf-is-not-ln-of-pdf", nm), 1.0, format!("{}.ln_pdf({:e}) = {:e} where the density is 0", d.show(), x, lgot), format!("{} x={:e}", d.show(), x));
+                        }
+                    }
+                }
+                if let Normal(m, s) = *d {
+                    tried += 1;
+                    let z = (x - m) / s;
+                    let want = 0.5 * reference::erfc(-z / (2f64).sqrt());
+                    let got = compute::distributions::Normal::new(m, s).cdf(x);
+                    if !((got - want).abs() <= 1e-7) { fail("normal:cdf-is-not-integral-of-pdf".into(), (got - want).abs(), format!("{}.cdf({:e}) = {:e}, integral of the density up to x = {:e}", d.show(), x, got, want), format!("{} x={:e}", d.show(), x)); }
+                }
+            }
+        }
+        // ---------- reported mean / variance against the textbook table
+        tried += 2;
+        crumb(&d.show());
+        let (gm, gv) = (d.mean(), d.var());
+        let sc = d.scale();
+        match d.ref_mean() {
+            Some(w) => if !((gm - w).abs() <= 1e-12 * w.abs() + 1e-12 * sc.min(1.0)) { fail(format!("{}:mean-differs-from-textbook", nm), 1.0, format!("{}.mean() = {:e}, textbook mean {:e}", d.show(), gm, w), d.show()); },
+            None => if gm.is_finite() { fail(format!("{}:mean-finite-where-undefined", nm), 1.0, format!("{}.mean() = {:e} but the first moment is infinite or undefined", d.show(), gm), d.show()); },
+        }
+        match d.ref_var() {
+            Some(w) => if !((gv - w).abs() <= 1e-12 * w.abs()) { fail(format!("{}:var-differs-from-textbook", nm), 1.0, format!("{}.var() = {:e}, textbook variance {:e}", d.show(), gv, w), d.show()); },
+            None => if gv.is_finite() { fail(format!("{}:var-finite-where-undefined", nm), 1.0, format!("{}.var() = {:e} but the second central moment is infinite or undefined", d.show(), gv), d.show()); },
+        }
+        // ---------- total mass and the first two moments of the implementation's own density / mass function
+        let (mass, m1, m2, tol, has1, has2): (f64, f64, f64, f64, bool, bool) = if d.discrete() {
+            let (lo, hi) = match *d { Bernoulli(_) => (-2, 3), Binomial(n, _) => (-3, n as i64 + 3), DiscreteUniform(a, b) => (a - 3, b + 3),
+                Poisson(l) => (-3, (l + 45.0 * l.sqrt() + 60.0) as i64), _ => unreachable!() };
+            let c0 = gm;
+            let (mut s0, mut s1, mut s2) = (0.0, 0.0, 0.0);
+            let mut broke = false;
+            for k in lo..=hi { tried += 1; crumb(&format!("{} k={}", d.show(), k)); match catch(|| d.pmf(k)) { Ok(p) => { s0 += p; s1 += (k as f64 - c0) * p; s2 += (k as f64 - c0) * (k as f64 - c0) * p; } Err(_) => { broke = true; } } }
+            if broke { (f64::NAN, f64::NAN, f64::NAN, 1e-9, true, true) } else { (s0, s1, s2, 1e-9, true, true) }
+        } else {
+            // laws and parameter ranges where double-precision quadrature through the public API reaches 1e-7
+            let ok = match *d { Beta(a, b) => a >= 0.3 && b >= 1.0, Gamma(a, _) => a >= 0.3, _ => true };
+            if !ok { continue; }
+            let (has1, has2) = match *d { T(n) => (n >= 2.0, n >= 3.0), Pareto(a, _) => (a >= 1.5, a >= 2.5), _ => (true, true) };
+            let c0 = if has1 { gm } else { match *d { Pareto(_, m) => m, _ => 0.0 } };
+            crumb(&format!("{} (pdf on a quadrature grid over the support)", d.show()));
+            let res = match catch(|| integrate_impl(d, c0)) { Ok(v) => v, Err(_) => [f64::NAN; 3] };
+            tried += 1;
+            (res[0], res[1], res[2], 1e-7, has1, has2)
+        };
+        if !((mass - 1.0).abs() <= tol) { fail(format!("{}:total-mass-not-1", nm), (mass - 1.0).abs(), format!("{}: total mass of the implemented density/mass function = {:.12e}", d.show(), mass), d.show()); continue; }
+        // m1 = E[X - mean()], m2 = E[(X - mean())^2]
+        let sd = d.ref_var().map(|v| v.sqrt()).unwrap_or(sc).max(1e-300);
+        if has1 && d.ref_mean().is_some() && !(m1.abs() <= tol * (sd + gm.abs() * 1e-3)) {
+            fail(format!("{}:mean-is-not-first-moment", nm), m1.abs() / sd, format!("{}: mean() = {:e} but the first moment of the implemented density/mass function is {:e}", d.show(), gm, gm + m1), d.show());
+        }
+        if has2 && has1 && d.ref_var().is_some() {
+            let v = m2 - m1 * m1;
+            if !((v - gv).abs() <= 10.0 * tol * v.abs().max(gv.abs()) + 1e-300) {
+                fail(format!("{}:var-is-not-second-central-moment", nm), ((v - gv) / v).abs(), format!("{}: var() = {:e} but the second central moment of the implemented density/mass function is {:e}", d.show(), gv, v), d.show());
+            }
+        }
+    }
+    // ---------- multivariate normal: dimension 1..6, random SPD covariance
+    let nm = if thorough { 300 } else { 60 };
+    for it in 0..nm {
+        let n = 1 + (it % 6) as usize;
+        let a: Vec<f64> = (0..n * n).map(|_| r.uniform(-1.0, 1.0)).collect();
+        let mut c = vec![0.0; n * n];
+        for i in 0..n { for j in 0..n { let mut s = 0.0; for k in 0..n { s += a[i * n + k] * a[j * n + k]; } c[i * n + j] = s + if i == j { 0.5 + n as f64 * 0.25 } else { 0.0 }; } }
+        for i in 0..n { for j in 0..i { c[i * n + j] = c[j * n + i]; } }
+        let sc = logu(&mut r, 1e-2, 1e2);
+        for v in c.iter_mut() { *v *= sc; }
+        let mu: Vec<f64> = (0..n).map(|_| r.uniform(-1e3, 1e3) * if it % 2 == 0 { 1e-3 } else { 1.0 }).collect();
+        // own Cholesky: log det and the quadratic form by forward substitution
+        let mut l = vec![0.0; n * n];
+        for i in 0..n { for j in 0..=i { let mut s = c[i * n + j]; for k in 0..j { s -= l[i * n + k] * l[j * n + k]; } l[i * n + j] = if i == j { s.sqrt() } else { s / l[j * n + j] }; } }
+        let logdet: f64 = (0..n).map(|i| 2.0 * l[i * n + i].ln()).sum();
+        crumb(&format!("n={} mean={:?} cov={:?}", n, mu, c));
+        let mvn = match catch(|| MVN::new(Vector::new(mu.clone()), Matrix::new(c.clone(), n as i32, n as i32))) { Ok(m) => m,
+            Err(e) => { fail("mvn:constructor-fails-on-spd".into(), 1.0, format!("MVN::new panics on a symmetric positive definite covariance: {}", e), format!("n={} mean={:?} cov={:?}", n, mu, c)); continue; } };
+        for j in 0..8 {
+            tried += 1;
+            let x: Vec<f64> = (0..n).map(|i| mu[i] + r.uniform(-3.0, 3.0) * c[i * n + i].sqrt() * if j == 0 { 0.0 } else { 1.0 }).collect();
+            let dx: Vec<f64> = (0..n).map(|i| x[i] - mu[i]).collect();
+            let mut y = vec![0.0; n];
+            for i in 0..n { let mut s = dx[i]; for k in 0..i { s -= l[i * n + k] * y[k]; } y[i] = s / l[i * n + i]; }
+            let qf: f64 = y.iter().map(|v| v * v).sum();
+            let lw = -0.5 * (logdet + qf + n as f64 * (2.0 * PI).ln());
+            let want = lw.exp();
+            let inp = format!("n={} mean={:?} cov={:?} x={:?}", n, mu, c, x);
+            crumb(&inp);
+            match catch(|| ((&mvn).pdf(&x[..]), (&mvn).ln_pdf(&x[..]))) {
+                Err(e) => fail("mvn:pdf-fails".into(), 1.0, format!("MVN pdf panics on an SPD covariance ({})", e), inp),
+                Ok((got, lgot)) => {
+                    if !((got - want).abs() <= 1e-9 * want) { fail("mvn:pdf-differs-from-textbook".into(), ((got - want) / want).abs(), format!("MVN pdf = {:e}, textbook density {:e} (dimension {})", got, want, n), inp.clone()); }
+                    if !((lgot - lw).abs() <= 1e-9 * lw.abs().max(1.0)) { fail("mvn:ln_pdf-is-not-ln-of-pdf".into(), (lgot - lw).abs(), format!("MVN ln_pdf = {:e}, log of the textbook density {:e}", lgot, lw), inp.clone()); }
+                }
+            }
+        }
+        tried += 1;
+        let (gm, gv) = ((&mvn).mean().to_vec(), (&mvn).var().data.to_vec());
+        if gm != mu || gv != c { fail("mvn:moments-differ-from-parameters".into(), 1.0, "MVN mean()/var() do not return the mean vector / covariance matrix".into(), format!("n={} mean={:?} cov={:?}", n, mu, c)); }
+    }
+    let out = worst.into_iter().map(|(class, (_, what, input))| Finding { class, what, input }).collect();
+    (tried, out)
+}
+
+// ------------------------------------------------------------------------------------------------
+fn one(f: impl FnOnce() -> f64) -> (libm::Table, Tm) {
+    libm::start();
+    let r = catch(f);
+    let t = libm::stop();
+    (t, outcome_list(&r.map(|x| vec![x])))
+}
+
+pub fn gen(tier: &str, seed: u64, outdir: &str) {
+    let thorough = tier == "thorough";
+    let mut r = Rng::new(seed ^ 0x2C02);
+    let mut cs = Cases::new("C02");
+    let mut grid = param_grid(&mut r, if thorough { 150 } else { 6 });
+    // special parameter values and the malformed stream (constructors panic)
+    let bad = [Bernoulli(-0.1), Bernoulli(1.5), Bernoulli(f64::NAN), Beta(0.0, 1.0), Beta(1.0, -1.0), Beta(-2.0, 3.0), Binomial(5, 1.2), Binomial(5, -0.5),
+        Binomial(3, f64::NAN), ChiSquared(0), DiscreteUniform(3, 2), DiscreteUniform(0, -1), Exponential(0.0), Exponential(-1.0), Gamma(0.0, 1.0), Gamma(1.0, 0.0),
+        Gamma(-1.0, -1.0), Gumbel(0.0, 0.0), Gumbel(1.0, -2.0), Normal(0.0, -1.0), Normal(5.0, -1e-300), Pareto(0.0, 1.0), Pareto(1.0, 0.0), Pareto(-1.0, 2.0),
+        Poisson(0.0), Poisson(-3.0), T(0.0), T(-1.0), Uniform(1.0, 0.0), Uniform(0.0, -1e-300)];
+    let odd = [Normal(0.0, 0.0), Normal(f64::NAN, 1.0), Normal(0.0, f64::INFINITY), Uniform(2.0, 2.0), Beta(f64::NAN, 1.0), Gamma(f64::INFINITY, 1.0), Exponential(f64::INFINITY),
+        Gumbel(f64::INFINITY, 1.0), Pareto(f64::NAN, 1.0), Poisson(f64::NAN), T(f64::NAN), T(f64::INFINITY), Bernoulli(-0.0), Binomial(0, 0.0), Exponential(5e-324), Gamma(170.0, 1.0), Gamma(180.0, 1.0),
+        ChiSquared(343), T(400.0), Beta(100.0, 100.0), Poisson(5e-324)];
+    let nvalid = grid.len();
+    grid.extend(bad); grid.extend(odd);
+    let npts = if thorough { 6 } else { 1 };
+    let specials = [0.0, -0.0, 1.0, -1.0, f64::INFINITY, f64::NEG_INFINITY, f64::NAN, 5e-324, -5e-324, 1e300, -1e300, 0.5];
+    for (idx, d) in grid.iter().enumerate() {
+        let valid = idx < nvalid;
+        let nmv = d.name();
+        let tag = |what: &str| if valid { format!("{}/{}", nmv, what) } else { format!("{}/{}/odd-or-invalid-parameters", nmv, what) };
+        let dc = *d;
+        let (t, e) = one(move || dc.mean());
+        cs.push(app("CMean", vec![libm_table(&t), d.tm(), e]), &tag("mean"), true);
+        let (t, e) = one(move || dc.var());
+        cs.push(app("CVar", vec![libm_table(&t), d.tm(), e]), &tag("var"), true);
+        if d.discrete() {
+            let mut ks = if valid { points_disc(d, &mut r, npts) } else { vec![0, 1, -1, 3] };
+            ks.truncate(if valid { 40 } else { 4 });
+            for k in ks {
+                // a Poisson mass at a huge count walks the whole factorial: keep the counts the property speaks about
+                if let Poisson(_) = *d { if k > 100_000 { continue; } }
+                let (t, e) = one(move || dc.pmf(k));
+                let inside = dc.ref_pmf_is_inside(k);
+                cs.push(app("CPmf", vec![libm_table(&t), d.tm(), Tm::Z(k), e]), &tag(if inside { "pmf/inside" } else { "pmf/outside" }), inside && k > 1);
+            }
+        } else {
+            let mut xs = if valid { points_cont(d, &mut r, npts) } else { vec![0.5, 2.0, -1.0] };
+            if valid && idx % 3 == 0 { xs.extend(specials); }
+            for x in xs {
+                let (t, e) = one(move || dc.pdf(x));
+                let inside = valid && dc.ref_pdf(x) > 0.0;
+                cs.push(app("CPdf", vec![libm_table(&t), d.tm(), Tm::F(x), e]), &tag(if inside { "pdf/inside" } else { "pdf/outside-or-special" }), inside && x != 0.0 && x != 1.0);
+                // where pdf returns the constant 0 the compiler folds `0f64.ln()` to -inf and libm is never called:
+                // libm's own answer for ln(pdf(x)) is added to the recorded table (a duplicate entry is dropped)
+                let (t, e) = one(move || { let v = dc.ln_pdf(x); let p = std::hint::black_box(dc.pdf(x)); std::hint::black_box(p.ln()); v });
+                cs.push(app("CLnPdf", vec![libm_table(&t), d.tm(), Tm::F(x), e]), &tag("ln_pdf"), inside && x != 0.0 && x != 1.0);
+                // erf(NaN) recurses without bound (C09, outside every quantifier): a NaN argument would abort the harness
+                if let Normal(m, s) = *d { if ((x - m) / (s * 2f64.sqrt())).is_nan() { continue; }
+                    let (t, e) = one(move || compute::distributions::Normal::new(m, s).cdf(x));
+                    cs.push(app("CCdf", vec![libm_table(&t), d.tm(), Tm::F(x), e]), &tag("cdf"), x != m);
+                }
+            }
+        }
+    }
+    // ---------- multivariate normal: pdf / ln_pdf from the cached inverse and determinant
+    let nmv = if thorough { 600 } else { 90 };
+    for it in 0..nmv {
+        let n = match it % 10 { 0..=5 => 1 + (it % 10) as usize, 6 => 8, 7 => 9, 8 => 12, _ => 1 + r.below(6) as usize };
+        let kind = if it % 15 == 14 { 1 + (it / 15) % 3 } else { 0 }; // 0 SPD; 1 non-positive diagonal; 2 not symmetric; 3 point of the wrong length
+        let a: Vec<f64> = (0..n * n).map(|_| r.uniform(-1.0, 1.0)).collect();
+        let mut c = vec![0.0; n * n];
+        for i in 0..n { for j in 0..n { let mut s = 0.0; for k in 0..n { s += a[i * n + k] * a[j * n + k]; } c[i * n + j] = s + if i == j { 0.5 + n as f64 * 0.25 } else { 0.0 }; } }
+        for i in 0..n { for j in 0..i { c[i * n + j] = c[j * n + i]; } }
+        let sc = logu(&mut r, 1e-2, 1e2);
+        for v in c.iter_mut() { *v *= sc; }
+        if kind == 1 { let i = r.below(n as u64) as usize; c[i * n + i] = if r.coin(0.5) { 0.0 } else { -c[i * n + i] }; }
+        if kind == 2 && n >= 2 { c[1] += 1e-3 * sc; }
+        let mu: Vec<f64> = (0..n).map(|_| if it % 2 == 0 { r.uniform(-1.0, 1.0) } else { r.uniform(-1e3, 1e3) }).collect();
+        let cm = Matrix::new(c.clone(), n as i32, n as i32);
+        let (cinv, cdet) = match catch(|| ((&cm).inv().data.to_vec(), (&cm).det())) { Ok(v) => v, Err(_) => continue };
+        let built = catch(|| MVN::new(Vector::new(mu.clone()), Matrix::new(c.clone(), n as i32, n as i32)));
+        for j in 0..3 {
+            let mut x: Vec<f64> = (0..n).map(|i| mu[i] + r.uniform(-3.0, 3.0) * c[i * n + i].abs().sqrt() * if j == 0 { 0.0 } else { 1.0 }).collect();
+            if kind == 3 { if j == 1 { x.push(0.5); } else if j == 2 && n >= 2 { x.pop(); } }
+            if j == 2 && it % 7 == 0 { x[0] = [f64::NAN, f64::INFINITY, 1e300, -0.0][(it / 7) % 4]; }
+            let tag = match kind { 0 => if n >= 8 { "mvn/spd/dimension>=8" } else { "mvn/spd/dimension1-6" }, 1 => "mvn/non-positive-diagonal", 2 => "mvn/not-symmetric", _ => "mvn/point-of-wrong-length" };
+            let args = |t: &libm::Table, e: Tm| vec![libm_table(t), Tm::Nat(n as u64), fl(&c), fl(&cinv), Tm::F(cdet), fl(&mu), fl(&x), e];
+            let (t, e) = one(|| match &built { Ok(m) => m.pdf(&x[..]), Err(_) => panic!("constructor") });
+            cs.push(app("CMvnPdf", args(&t, e)), &format!("{}/pdf", tag), kind == 0 && n >= 2 && j > 0);
+            // `(2. * PI).ln()` is folded at compile time: libm's own answer is added to the recorded table
+            let (t, e) = one(|| { std::hint::black_box(std::hint::black_box(2.0 * PI).ln()); match &built { Ok(m) => m.ln_pdf(&x[..]), Err(_) => panic!("constructor") } });
+            cs.push(app("CMvnLnPdf", args(&t, e)), &format!("{}/ln_pdf", tag), kind == 0 && n >= 2 && j > 0);
+        }
+    }
+    cs.write(outdir, 400, "13 univariate laws on the property's parameter grids (shape <1, =1, >1; dof 1..200; rates 1e-3..1e3; binomial n <= 1000; locations to +-1e3) plus random parameters, odd parameters (NaN, inf, degenerate) and invalid parameters (constructor panics); pdf, ln_pdf, (Normal) cdf at points across the support, on its boundary, outside it, in the far tails and at special values (+-0, +-inf, NaN, subnormal, 1e300); pmf at counts inside, at the edges of and outside the support (negative, too large, i32::MAX); mean and var of every parameter set; every case carries the libm calls the implementation made; multivariate normal of dimension 1..6, 8, 9, 12 on random SPD covariances (cached inverse and determinant recomputed with Matrix::inv / Matrix::det and passed to the model), plus covariances with a non-positive diagonal entry, non-symmetric ones and points of the wrong length (panics), NaN/inf coordinates; non-trivial = point strictly inside the support and off 0/1, a moment, or an MVN point off the mean in dimension >= 2; distinct by hash of the case term");
+}
+
+impl D {
+    fn ref_pmf_is_inside(&self, k: i64) -> bool {
+        match *self { Bernoulli(_) => k == 0 || k == 1, Binomial(n, _) => k >= 0 && k as u64 <= n, DiscreteUniform(a, b) => a <= k && k <= b, Poisson(_) => k >= 0, _ => false }
+    }
+}
